@@ -22,7 +22,7 @@ def run(tier, replay_file=None):
     # 1. design level
     R.cov["states"], R.cov["transitions"] = 0, 0
     for (mi, me, ms) in ([(2, 2, 3)] if quick else [(2, 2, 3), (3, 2, 3), (2, 3, 3)]):
-        mc = tlc.run("Abm", dict(consts(mi, me, ms, 100, '{0,100,200}', OPS_EXH), L='99'),
+        mc = tlc.run("Abm", dict(consts(mi, me, ms, 100, '{0,100,200}', OPS_EXH), L='0'),
                      invariants=INVS, view="ViewEv", spec="Spec", timeout=7200)
         if mc.violation:
             R.violation("spec:" + mc.violation, {"trace": mc.trace[:3000]})
@@ -30,7 +30,7 @@ def run(tier, replay_file=None):
         R.cov["transitions"] += mc.generated
     R.cov["exhaustive_bounds"] = "ids,events,steps <= (2,2,3)" + ("" if quick else ", (3,2,3), (2,3,3)")
     if not quick:
-        cv = tlc.run("Abm", dict(consts(2, 1, 2, 50, '{0,30,100}', OPS_ALL), L='99'), invariants=INVS, view="ViewEv", spec="Spec", coverage=True)
+        cv = tlc.run("Abm", dict(consts(2, 1, 2, 50, '{0,30,100}', OPS_ALL), L='0'), invariants=INVS, view="ViewEv", spec="Spec", coverage=True)
         if cv.violation:
             R.violation("spec:" + cv.violation, {"trace": cv.trace[:3000]})
         R.cov["tlc_actions"] = {k: v[1] for k, v in cv.coverage.items() if v[1] > 0 and k != "Init"}
